@@ -143,7 +143,8 @@ func addScrubFieldsToSelectionSet(ctx *PlanningContext, selectionSet ast.Selecti
 		return selectionSet, addedFields
 	}
 
-	isFoundIDField := isContainsField(selectionSet, common.IDFieldName)
+	// an aliased id is returned under another name, so it can't be used for stitching
+	isFoundIDField := isContainsUnaliasedField(selectionSet, common.IDFieldName)
 
 	if isFoundIDField {
 		return selectionSet, addedFields
@@ -183,5 +184,25 @@ func selectionSetHasResponseName(ss []ast.Selection, name string) bool {
 			return true
 		}
 	}
+	return false
+}
+
+// isContainsUnaliasedField checks if selection set has provided field and it's returned under it's own name
+func isContainsUnaliasedField(selectionSet ast.SelectionSet, fieldname string) bool {
+	for _, selection := range selectionSet {
+		switch sel := selection.(type) {
+		case *ast.Field:
+			if sel.Name == fieldname && fieldResponseName(sel) == fieldname {
+				return true
+			}
+		case *ast.InlineFragment:
+			if isContainsUnaliasedField(sel.SelectionSet, fieldname) {
+				return true
+			}
+		default:
+			continue
+		}
+	}
+
 	return false
 }
